@@ -23,6 +23,8 @@ And(a)       == [op |-> "and", a |-> a]
 Not(a)       == [op |-> "not", a |-> a]
 Cap(a)       == [op |-> "cap", a |-> a]
 Act(k)       == [op |-> "act", k |-> k]          \* k: textual index, 0-based
+RawAct(t)    == [op |-> "rawact", t |-> t]       \* action with verbatim Go text (code generation scenarios only)
+RawPred(t)   == [op |-> "rawpred", t |-> t]      \* predicate with verbatim Go text
 Pred(v)      == [op |-> "pred", v |-> v]         \* &{ v } with a fixed pure outcome
 Chg(k)       == [op |-> "chg", k |-> k]          \* !{ code }: state change, runs inline
 (* sugar (what the concrete syntax offers beyond the core) *)
@@ -195,7 +197,7 @@ ItemsS(items, i, st, afterHex) ==
           THEN LET b == CharS(it.hi, "cls", st, FALSE) IN a.s \o "-" \o b.s \o ItemsS(items, i + 1, st, b.hex)
           ELSE a.s \o ItemsS(items, i + 1, st, a.hex)
 
-Atomic(e) == e.op \in {"chr", "dot", "rng", "ref", "act", "pred", "chg", "ichr", "str", "cls", "cap", "nil"}
+Atomic(e) == e.op \in {"chr", "dot", "rng", "ref", "act", "rawact", "rawpred", "pred", "chg", "ichr", "str", "cls", "cap", "nil"}
 
 (* action / predicate payload texts; st.act selects the probe form:
    "full": { p.Act(k, text, begin, end) }   (AST mode: Execute() declares all three)
@@ -213,7 +215,7 @@ ChgS(k) == "!{ p.Chg(" \o ToString(k) \o ") }"
    3 suffix/primary.                                                                     *)
 \* an operand whose text would start with "{": after & or ! it would read as a predicate / state change
 RECURSIVE BraceFirst(_)
-BraceFirst(e) == e.op = "act" \/ (e.op \in {"opt", "star", "plus"} /\ BraceFirst(e.a))
+BraceFirst(e) == e.op \in {"act", "rawact"} \/ (e.op \in {"opt", "star", "plus"} /\ BraceFirst(e.a))
 RECURSIVE RenderE(_, _, _), RenderList(_, _, _, _, _)
 Wrap(s, need) == IF need THEN "(" \o s \o ")" ELSE s
 RenderList(es, i, sep, st, lvl) ==
@@ -234,6 +236,8 @@ RenderE(e, st, lvl) ==
     [] e.op = "nil" -> "()"
     [] e.op = "ref" -> e.r
     [] e.op = "act" -> ActS(e.k, st)
+    [] e.op = "rawact" -> "{" \o e.t \o "}"
+    [] e.op = "rawpred" -> Wrap("&{" \o e.t \o "}", lvl > 2)
     [] e.op = "pred" -> Wrap(PredS(e.v), lvl > 2)      \* &{..} and !{..} are Prefix forms, not primaries
     [] e.op = "chg" -> Wrap(ChgS(e.k), lvl > 2)
     [] e.op = "cap" -> "<" \o st.sp \o RenderE(e.a, st, 0) \o st.sp \o ">"
@@ -264,4 +268,10 @@ RenderRules(rs, i, st) == IF i > Len(rs) THEN "" ELSE RenderRule(rs[i], st) \o R
 Header(st) == "package g" \o st.nl \o st.nl \o "type T Peg {" \o st.nl \o " Probe" \o st.nl \o "}" \o st.nl \o st.nl
 
 Render(G, st) == Header(st) \o RenderRules(G.rules, 1, st)
+
+\* header with leading comments / blank lines and imports: pre is text placed before "package",
+\* imports is the import section text (already in concrete syntax)
+RenderWith(G, st, pre, imports) ==
+  pre \o "package g" \o st.nl \o st.nl \o imports \o "type T Peg {" \o st.nl \o " Probe" \o st.nl \o "}" \o st.nl \o st.nl
+  \o RenderRules(G.rules, 1, st)
 =============================================================================
